@@ -414,5 +414,8 @@ def random_params(rnd: random.Random, tier: str, **over: Any) -> Dict[str, Any]:
     )
     if p["autograd"]:
         p["n_threads"] = max(2, p["n_threads"])
+    if tier == "thorough" and rnd.random() < 0.15:
+        # larger traces: more steps, more operators per step, deeper nesting
+        p.update(n_steps=rnd.choice([3, 5, 8]), ops_per_step=rnd.choice([(8, 16), (10, 25)]), max_depth=rnd.choice([3, 5, 7]))
     p.update(over)
     return p
